@@ -1,4 +1,314 @@
-import BipVerif.Model.Monero
+/-
+C16 — Monero wallets: scalar reduction, key derivation from the spend key / seed, sub-address
+derivation, watch-only wallets, address codec round trip, error kinds.
+`keccak256` and the Edwards arithmetic (`edMulBase`, `edAdd`, `edMul`) are opaque here: no theorem
+unfolds them, and none needs a hypothesis about them (the key-canonicity facts asked for in the
+work order turned out to be provable from the key layer's own definitions).
+Helper lemmas: `BipVerif/Lemmas/Monero.lean`.
+-/
+import BipVerif.Lemmas.Monero
+
 namespace BipVerif.Props.C16
-theorem placeholder : True := trivial
+open BipVerif BipVerif.Prim BipVerif.Model BipVerif.Model.MoneroLemmas
+
+/-! ### 1. `sc_reduce` -/
+
+/-- the reduced scalar is below the group order … -/
+theorem scReduce_lt (b : Bytes) : Bytes.toNatLE (scReduce b) < edL := MoneroLemmas.scReduce_lt b
+
+/-- … occupies 32 bytes … -/
+theorem scReduce_length (b : Bytes) : (scReduce b).length = 32 := MoneroLemmas.scReduce_length b
+
+/-- … is congruent to the input … -/
+theorem scReduce_value (b : Bytes) : Bytes.toNatLE (scReduce b) = Bytes.toNatLE b % edL :=
+  MoneroLemmas.scReduce_toNatLE b
+
+/-- … and is therefore always a valid Monero private key. -/
+theorem scReduce_valid (b : Bytes) : privValid .ed25519Monero (scReduce b) = true :=
+  MoneroLemmas.scReduce_valid b
+
+/-- reduction fixes valid keys (so `FromSeed` on a reduced 32-byte seed uses the seed itself) -/
+theorem scReduce_fixes_valid (k : Bytes) (h : privValid .ed25519Monero k = true) : scReduce k = k :=
+  MoneroLemmas.scReduce_of_valid k h
+
+/-! ### 2. key derivation -/
+
+/-- **the private view key is the reduced Keccak-256 of the private spend key** -/
+theorem view_is_reduced_keccak_of_spend {k : Bytes} {w : XmrWallet} (h : xmrFromSpend k = .ok w) :
+    w.privView = scReduce (keccak256 k) ∧ w.privSpend = some k := by
+  obtain ⟨_, h2, h3, _, _⟩ := xmrFromSpend_ok h
+  exact ⟨h3, h2⟩
+
+/-- the complete success characterisation of `FromPrivateSpendKey` -/
+theorem fromSpend_spec {k : Bytes} {w : XmrWallet} (h : xmrFromSpend k = .ok w) :
+    privValid .ed25519Monero k = true ∧
+    w.privSpend = some k ∧
+    w.privView = scReduce (keccak256 k) ∧
+    w.pubSpend = edEncode (edMulBase (edNoClampScalar k)) ∧
+    w.pubView = edEncode (edMulBase (edNoClampScalar (scReduce (keccak256 k)))) ∧
+    edMulBase (edNoClampScalar k) ≠ edIdentity ∧
+    edMulBase (edNoClampScalar (scReduce (keccak256 k))) ≠ edIdentity := by
+  obtain ⟨h1, h2, h3, h4, h5⟩ := xmrFromSpend_ok h
+  obtain ⟨_, a2, a3⟩ := xmrPubOfPriv_ok h4
+  rw [h3] at h5
+  obtain ⟨_, b2, b3⟩ := xmrPubOfPriv_ok h5
+  exact ⟨h1, h2, h3, a3, b3, a2, b2⟩
+
+/-- `FromSeed`: a 32-byte seed is reduced directly, any other seed is hashed first -/
+theorem fromSeed_spec (seed : Bytes) :
+    xmrFromSeed seed = xmrFromSpend (scReduce (if seed.length = 32 then seed else keccak256 seed)) :=
+  rfl
+
+/-- `FromBip44PrivateKey`: the spend key is the reduced Keccak-256 of the BIP-44 private key -/
+theorem fromBip44_spec (k : Bytes) : xmrFromBip44Priv k = xmrFromSpend (scReduce (keccak256 k)) := rfl
+
+/-- wallets built from a seed: the spend key is the reduced seed (hash) -/
+theorem fromSeed_keys {seed : Bytes} {w : XmrWallet} (h : xmrFromSeed seed = .ok w) :
+    w.privSpend = some (scReduce (if seed.length = 32 then seed else keccak256 seed)) ∧
+    w.privView = scReduce (keccak256 (scReduce (if seed.length = 32 then seed else keccak256 seed))) := by
+  rw [fromSeed_spec] at h
+  obtain ⟨h1, h2⟩ := view_is_reduced_keccak_of_spend h
+  exact ⟨h2, h1⟩
+
+/-! ### 3. sub-address (0,0) and index range -/
+
+theorem subaddr_zero_is_primary_keys (w : XmrWallet) :
+    xmrSubaddrKeys w 0 0 = .ok (w.pubSpend, w.pubView) := xmrSubaddrKeys_zero w
+
+theorem subaddr_zero_is_primary (w : XmrWallet) (nv snv : Bytes) :
+    xmrSubaddress w nv snv 0 0 = xmrPrimaryAddress w nv := by
+  unfold xmrSubaddress
+  rw [if_pos (by simp)]
+
+/-- indices beyond 32 bits are refused with `ValueError` -/
+theorem subaddr_index_range (w : XmrWallet) (minor major : Nat)
+    (h : minor > 2 ^ 32 - 1 ∨ major > 2 ^ 32 - 1) :
+    xmrSubaddrKeys w minor major = .error .value := by
+  cases h with
+  | inl h => exact xmrSubaddrKeys_minor_range w minor major h
+  | inr h => exact xmrSubaddrKeys_major_range w minor major h
+
+theorem subaddress_index_range (w : XmrWallet) (nv snv : Bytes) (minor major : Nat)
+    (h : minor > 2 ^ 32 - 1 ∨ major > 2 ^ 32 - 1) :
+    xmrSubaddress w nv snv minor major = .error .value := by
+  unfold xmrSubaddress
+  have h0 : ¬ (decide (minor = 0) && decide (major = 0)) = true := by
+    simp only [Bool.and_eq_true, decide_eq_true_eq]; omega
+  rw [if_neg h0, subaddr_index_range w minor major h]
+  rfl
+
+/-- the derivation for `(major, minor) ≠ (0,0)`:
+`m = sc_reduce(keccak("SubAddr\0" ‖ a ‖ le32 major ‖ le32 minor))`, `D = B + m·G`, `C = a·D` -/
+theorem subaddr_keys_spec (w : XmrWallet) (minor major : Nat) (hm : minor ≤ 2 ^ 32 - 1)
+    (hM : major ≤ 2 ^ 32 - 1) (hne : ¬ (minor = 0 ∧ major = 0)) {s v : Bytes}
+    (h : xmrSubaddrKeys w minor major = .ok (s, v)) :
+    ∃ b, edDecodeLenient w.pubSpend = some b ∧
+      let m := Bytes.toNatLE (scReduce (keccak256 (subaddrMsg w.privView major minor)))
+      m ≠ 0 ∧ m < edL ∧
+      s = edEncode (edAdd b (edMulBase m)) ∧
+      v = edEncode (edMul (Bytes.toNatLE w.privView % 2 ^ 255) (edAdd b (edMulBase m))) ∧
+      edMul (Bytes.toNatLE w.privView % 2 ^ 255) (edAdd b (edMulBase m)) ≠ edIdentity := by
+  rw [xmrSubaddrKeys_eq w minor major hm hM hne] at h
+  split at h
+  · cases h
+  · rename_i b hb
+    refine ⟨b, hb, ?_⟩
+    dsimp only at h ⊢
+    split at h
+    · cases h
+    · rename_i hm0
+      split at h
+      · cases h
+      · rename_i hc
+        have := Except.ok.inj h
+        simp only [Prod.mk.injEq] at this
+        exact ⟨hm0, MoneroLemmas.scReduce_lt _, this.1.symm, this.2.symm, hc⟩
+
+/-! ### 4. the hashed index encoding is injective -/
+
+/-- `"SubAddr" ‖ 0 ‖ a ‖ le32 major ‖ le32 minor` determines `(a, major, minor)` for view keys of
+equal length (in particular for a fixed 32-byte view key) and indices in `[0, 2^32)`. -/
+theorem subaddr_index_injective {a a' : Bytes} {major minor major' minor' : Nat}
+    (hl : a.length = a'.length)
+    (hM : major < 2 ^ 32) (hm : minor < 2 ^ 32) (hM' : major' < 2 ^ 32) (hm' : minor' < 2 ^ 32)
+    (h : "SubAddr".toUTF8.toList ++ [0] ++ a ++ Bytes.ofNatLE 4 major ++ Bytes.ofNatLE 4 minor
+       = "SubAddr".toUTF8.toList ++ [0] ++ a' ++ Bytes.ofNatLE 4 major' ++ Bytes.ofNatLE 4 minor') :
+    a = a' ∧ major = major' ∧ minor = minor' :=
+  subaddrMsg_inj hl hM hm hM' hm' h
+
+/-- the message really is the one hashed by the model (ties `subaddrMsg` to the text above) -/
+theorem subaddrMsg_def (a : Bytes) (major minor : Nat) :
+    subaddrMsg a major minor
+      = "SubAddr".toUTF8.toList ++ [0] ++ a ++ Bytes.ofNatLE 4 major ++ Bytes.ofNatLE 4 minor := rfl
+
+/-! ### 5. watch-only wallets -/
+
+/-- a watch-only wallet built from the view key and public spend key of a full wallet carries the
+same three address-relevant fields.  (No key-layer hypothesis is needed: the public spend key of
+a full wallet is a 32-byte encoding, and the Monero key parser returns 32-byte inputs unchanged.) -/
+theorem watchOnly_same_keys {k : Bytes} {full wo : XmrWallet} (hf : xmrFromSpend k = .ok full)
+    (hw : xmrWatchOnly full.privView full.pubSpend = .ok wo) :
+    wo.privView = full.privView ∧ wo.pubSpend = full.pubSpend ∧ wo.pubView = full.pubView := by
+  obtain ⟨_, _, _, f4, f5⟩ := xmrFromSpend_ok hf
+  obtain ⟨_, _, w3, w4, w5⟩ := xmrWatchOnly_ok hw
+  refine ⟨w3, pubFromBytes_monero_of_length (xmrPubOfPriv_length f4) w4, ?_⟩
+  rw [f5] at w5
+  exact (Except.ok.inj w5).symm
+
+/-- existence: when the full wallet's public spend key re-validates (key-layer fact), the
+watch-only constructor succeeds and returns the full wallet minus the private spend key -/
+theorem watchOnly_of_full {k : Bytes} {full : XmrWallet} (hf : xmrFromSpend k = .ok full)
+    (hcanon : pubFromBytes .ed25519Monero full.pubSpend = some full.pubSpend) :
+    xmrWatchOnly full.privView full.pubSpend = .ok { full with privSpend := none } := by
+  obtain ⟨_, _, f3, _, f5⟩ := xmrFromSpend_ok hf
+  rw [xmrWatchOnly_eq, if_pos (by rw [f3]; exact MoneroLemmas.scReduce_valid _), hcanon]
+  dsimp only
+  rw [f5]
+
+/-- **a watch-only wallet produces exactly the addresses of the full wallet** -/
+theorem watchOnly_same_addresses {k : Bytes} {full wo : XmrWallet} (hf : xmrFromSpend k = .ok full)
+    (hw : xmrWatchOnly full.privView full.pubSpend = .ok wo) :
+    (∀ nv, xmrPrimaryAddress wo nv = xmrPrimaryAddress full nv) ∧
+    (∀ nv snv minor major, xmrSubaddress wo nv snv minor major = xmrSubaddress full nv snv minor major) ∧
+    (∀ minor major, xmrSubaddrKeys wo minor major = xmrSubaddrKeys full minor major) ∧
+    (∀ nv pid, xmrIntegratedAddress wo nv pid = xmrIntegratedAddress full nv pid) := by
+  obtain ⟨h1, h2, h3⟩ := watchOnly_same_keys hf hw
+  have hv : addrView wo = addrView full := by unfold addrView; rw [h1, h2, h3]
+  exact ⟨fun nv => xmrPrimaryAddress_congr hv nv,
+    fun nv snv mi ma => xmrSubaddress_congr hv nv snv mi ma,
+    fun mi ma => xmrSubaddrKeys_congr hv mi ma,
+    fun nv pid => xmrIntegratedAddress_congr hv nv pid⟩
+
+/-- the address functions read only `(privView, pubSpend, pubView)` -/
+theorem addresses_depend_on_view_fields {w w' : XmrWallet} (hv : w.privView = w'.privView)
+    (hs : w.pubSpend = w'.pubSpend) (hp : w.pubView = w'.pubView) :
+    (∀ nv, xmrPrimaryAddress w nv = xmrPrimaryAddress w' nv) ∧
+    (∀ nv snv minor major, xmrSubaddress w nv snv minor major = xmrSubaddress w' nv snv minor major) ∧
+    (∀ minor major, xmrSubaddrKeys w minor major = xmrSubaddrKeys w' minor major) ∧
+    (∀ nv pid, xmrIntegratedAddress w nv pid = xmrIntegratedAddress w' nv pid) := by
+  have h : addrView w = addrView w' := by unfold addrView; rw [hv, hs, hp]
+  exact ⟨fun nv => xmrPrimaryAddress_congr h nv,
+    fun nv snv mi ma => xmrSubaddress_congr h nv snv mi ma,
+    fun mi ma => xmrSubaddrKeys_congr h mi ma,
+    fun nv pid => xmrIntegratedAddress_congr h nv pid⟩
+
+/-- a watch-only wallet has no private spend key: asking for it is a `MoneroKeyError` -/
+theorem watchOnly_private_spend_refused {v p : Bytes} {w : XmrWallet}
+    (h : xmrWatchOnly v p = .ok w) : xmrPrivateSpend w = .error .key := by
+  obtain ⟨_, h2, _⟩ := xmrWatchOnly_ok h
+  unfold xmrPrivateSpend
+  rw [h2]
+  rfl
+
+/-- … whereas a full wallet hands it out -/
+theorem full_private_spend {k : Bytes} {w : XmrWallet} (h : xmrFromSpend k = .ok w) :
+    xmrPrivateSpend w = .ok k := by
+  obtain ⟨_, h2, _⟩ := xmrFromSpend_ok h
+  unfold xmrPrivateSpend
+  rw [h2]
+  rfl
+
+/-! ### 6. address codec -/
+
+/-- **decode ∘ encode**: every address the encoder produces (standard, sub-address or integrated,
+any network-version bytes) decodes to the concatenation of the two canonical public keys.  The
+key-canonicity facts (32 bytes, canonical keys re-validate) are proved, not assumed. -/
+theorem addr_decode_encode {netVer : Bytes} {payId : Option Bytes} {spend view : Bytes}
+    {a : List Char} (h : xmrAddrEncode netVer payId spend view = .ok a) :
+    ∃ s v, addrKey .ed25519Monero spend = .ok s ∧ addrKey .ed25519Monero view = .ok v ∧
+      s.length = 32 ∧ v.length = 32 ∧ xmrAddrDecode netVer payId a = .ok (s ++ v) := by
+  obtain ⟨hp, s, v, hs, hv, rfl⟩ := xmrAddrEncode_ok h
+  have hs' := (addrKey_ok_iff _ _ _).mp hs
+  have hv' := (addrKey_ok_iff _ _ _).mp hv
+  have ls := (pubFromBytes_monero_some hs').2.1
+  have lv := (pubFromBytes_monero_some hv').2.1
+  refine ⟨s, v, hs, hv, ls, lv, ?_⟩
+  apply xmrAddrDecode_payload netVer payId s v ls lv _ _ hp
+  · unfold pubValid; rw [pubFromBytes_monero_idem hs']; rfl
+  · unfold pubValid; rw [pubFromBytes_monero_idem hv']; rfl
+
+/-- the form asked for in the work order (hypotheses there are redundant but harmless) -/
+theorem addr_decode_encode' {netVer : Bytes} {payId : Option Bytes} {spend view s v : Bytes}
+    {a : List Char} (hs : addrKey .ed25519Monero spend = .ok s)
+    (hv : addrKey .ed25519Monero view = .ok v)
+    (h : xmrAddrEncode netVer payId spend view = .ok a) :
+    xmrAddrDecode netVer payId a = .ok (s ++ v) := by
+  obtain ⟨s', v', hs', hv', _, _, hd⟩ := addr_decode_encode h
+  rw [hs] at hs'; rw [hv] at hv'
+  cases Except.ok.inj hs'; cases Except.ok.inj hv'
+  exact hd
+
+/-- wallet-level corollary: the primary address of a wallet decodes to its two public keys
+whenever these re-validate (always the case for constructor-built wallets, see
+`watchOnly_of_full` for the same hypothesis) -/
+theorem primary_address_decodes {w : XmrWallet} {nv : Bytes} {a : List Char}
+    (hs : pubFromBytes .ed25519Monero w.pubSpend = some w.pubSpend)
+    (hv : pubFromBytes .ed25519Monero w.pubView = some w.pubView)
+    (h : xmrPrimaryAddress w nv = .ok a) : xmrAddrDecode nv none a = .ok (w.pubSpend ++ w.pubView) :=
+  addr_decode_encode' ((addrKey_ok_iff _ _ _).mpr hs) ((addrKey_ok_iff _ _ _).mpr hv) h
+
+/-- the encoder refuses payment ids that are not 8 bytes long -/
+theorem addr_encode_payid_length (netVer p spend view : Bytes) (h : p.length ≠ 8) :
+    xmrAddrEncode netVer (some p) spend view = .error .value := by
+  unfold xmrAddrEncode
+  dsimp only
+  rw [if_pos h]
+  rfl
+
+/-- standard and integrated decoders are mutually exclusive (model after the repair of finding
+F-xmrint-std): an address accepted without payment id is refused, with `ValueError`, by a decoder
+that expects one — the expected id is no longer ignored -/
+theorem addr_decode_standard_refused_by_integrated {netVer : Bytes} {a : List Char} {r : Bytes}
+    (pid : Bytes) (h : xmrAddrDecode netVer none a = .ok r) :
+    xmrAddrDecode netVer (some pid) a = .error .value := xmrAddrDecode_none_some pid h
+
+/-- the payload length a decoder has checked: 64 bytes without, 72 with payment id -/
+theorem addr_decode_payload_length {netVer : Bytes} {payId : Option Bytes} {a : List Char} {r : Bytes}
+    (h : xmrAddrDecode netVer payId a = .ok r) :
+    ∃ dec p, xmrDecode a = .ok dec ∧ removePrefix (dropLast dec 4) netVer = .ok p ∧
+      p.length = (match payId with | none => 64 | some _ => 72) := xmrAddrDecode_length h
+
+/-! ### 7. error kinds -/
+
+theorem fromSpend_errors {k : Bytes} {e : Err} (h : xmrFromSpend k = .error e) :
+    e = .key ∨ e = .value := xmrFromSpend_error h
+
+theorem fromSeed_errors {seed : Bytes} {e : Err} (h : xmrFromSeed seed = .error e) :
+    e = .key ∨ e = .value := xmrFromSpend_error h
+
+/-- sharper: after `sc_reduce` the key checks cannot fail, so `FromSeed` fails only with the
+plain `ValueError` of a zero scalar (identity public key) -/
+theorem fromSeed_errors_value {seed : Bytes} {e : Err} (h : xmrFromSeed seed = .error e) :
+    e = .value := by
+  rw [fromSeed_spec, xmrFromSpend_eq, if_pos (MoneroLemmas.scReduce_valid _)] at h
+  have aux : ∀ b e', xmrPubOfPriv (scReduce b) = .error e' → e' = .value := by
+    intro b e' he
+    rw [xmrPubOfPriv_eq, if_pos (MoneroLemmas.scReduce_valid _)] at he
+    split at he
+    · exact (Except.error.inj he).symm
+    · cases he
+  split at h
+  · rename_i e' he
+    cases Except.error.inj h
+    exact aux _ _ he
+  · split at h
+    · rename_i e' he
+      cases Except.error.inj h
+      exact aux _ _ he
+    · cases h
+
+theorem watchOnly_errors {v p : Bytes} {e : Err} (h : xmrWatchOnly v p = .error e) :
+    e = .key ∨ e = .value := xmrWatchOnly_error h
+
+theorem subaddrKeys_errors {w : XmrWallet} {minor major : Nat} {e : Err}
+    (h : xmrSubaddrKeys w minor major = .error e) : e = .value := xmrSubaddrKeys_error h
+
+theorem addrEncode_errors {netVer : Bytes} {payId : Option Bytes} {spend view : Bytes} {e : Err}
+    (h : xmrAddrEncode netVer payId spend view = .error e) : e = .value := xmrAddrEncode_error h
+
+/-- an invalid private spend key is a `MoneroKeyError` -/
+theorem fromSpend_invalid_key (k : Bytes) (h : privValid .ed25519Monero k = false) :
+    xmrFromSpend k = .error .key := by
+  rw [xmrFromSpend_eq, if_neg (by rw [h]; decide)]
+
 end BipVerif.Props.C16
